@@ -67,6 +67,7 @@ type c14State struct {
 	Delayed map[string]int // path -> payload of the request answered status=delayed and not yet retrieved
 	QAlive  bool           // mirror of the filter's `q != nil` (delay capability and a smudge since the last completed list phase)
 	Store   []string       // observed local store
+	Used    map[string]string // paths smudged in the current checkout (since process start / the last completed list phase) -> "s" plain, "d" with can-delay=1
 	Depth   int            // requests before/between list phases (not part of the key)
 }
 
@@ -76,7 +77,12 @@ func (s *c14State) key() string {
 		d = append(d, fmt.Sprintf("%s=%d", p, pl))
 	}
 	sort.Strings(d)
-	return fmt.Sprintf("root=%d dead=%v bad=%v q=%v delayed=[%s] store=[%s]", s.Root, s.Dead, s.Bad, s.QAlive, strings.Join(d, ","), strings.Join(s.Store, ","))
+	var u []string
+	for p, how := range s.Used {
+		u = append(u, p+":"+how)
+	}
+	sort.Strings(u)
+	return fmt.Sprintf("root=%d dead=%v bad=%v q=%v delayed=[%s] smudged-in-checkout=[%s] store=[%s]", s.Root, s.Dead, s.Bad, s.QAlive, strings.Join(d, ","), strings.Join(u, ","), strings.Join(s.Store, ","))
 }
 
 type c14StepRec struct {
@@ -95,6 +101,7 @@ type c14Run struct {
 	Evals    int64
 	Inconcl  string
 	ToolErr  string
+	HangDump string // stderr of the filter after SIGQUIT when the tool guard fired
 	Counters map[string]int64
 }
 
@@ -249,7 +256,7 @@ func (e *c14Env) contentClass(c []byte, pl c14Payload) string {
 func (e *c14Env) runProgram(rootIdx int, ops []c14Op) (r c14Run) {
 	r.Counters = map[string]int64{}
 	root := e.roots[rootIdx]
-	r.State = c14State{Root: rootIdx, Delayed: map[string]int{}}
+	r.State = c14State{Root: rootIdx, Delayed: map[string]int{}, Used: map[string]string{}}
 	repo, err := e.freshRepo(root.SkipDL, nil)
 	defer c14RemoveAll(repo)
 	if err != nil {
@@ -272,7 +279,8 @@ func (e *c14Env) runProgram(rootIdx int, ops []c14Op) (r c14Run) {
 			for _, o := range ops {
 				names = append(names, e.opString(o))
 			}
-			r.Inconcl = fmt.Sprintf("filter-process guard timeout (%v) in [root %s] %s; stderr: %s", c14Guard, root.Name, strings.Join(names, " ; "), c14Clip(p.stderr.String(), 300))
+			r.Inconcl = fmt.Sprintf("filter-process guard timeout (%v) in [root %s] %s", c14Guard, root.Name, strings.Join(names, " ; "))
+			r.HangDump = p.stderr.String()
 			r.Viols = nil
 		}
 	}()
@@ -308,6 +316,7 @@ func (e *c14Env) runProgram(rootIdx int, ops []c14Op) (r c14Run) {
 		if op.Kind == "finish" {
 			outcome = e.runFinish(&r, p, root, repo, &rec)
 			r.State.QAlive = false
+			r.State.Used = map[string]string{} // the checkout is complete
 			lastLabel = "finish:-"
 		} else {
 			r.State.Depth++
@@ -329,8 +338,17 @@ func (e *c14Env) runProgram(rootIdx int, ops []c14Op) (r c14Run) {
 			if a.Form == "delayed" && canDelay {
 				r.State.Delayed[op.Path] = op.Payload
 			}
-			if command == "smudge" && root.Delay {
-				r.State.QAlive = true
+			if command == "smudge" {
+				if r.State.Used[op.Path] != "" {
+					r.State.Used = map[string]string{} // a path comes again: Git started another checkout
+				}
+				r.State.Used[op.Path] = "s"
+				if canDelay {
+					r.State.Used[op.Path] = "d"
+				}
+				if root.Delay {
+					r.State.QAlive = true
+				}
 			}
 			pk := op.Scheme
 			if len(pl.Schemes) == 1 {
@@ -550,12 +568,22 @@ func (s *c14Search) enabled(st *c14State) []int {
 	}
 	root := s.e.roots[st.Root]
 	full := st.Depth < s.fullUpTo && (s.allRootsFull || root.Full)
-	free := ""
+	// path rule beyond the full-alphabet positions (Git visits each path once per checkout, in index order):
+	// clean: the smallest path Git is not waiting for; smudge: the smallest path neither delayed nor already smudged
+	// in this checkout; when every path was smudged and nothing is delayed a new checkout starts again at that path.
+	free, freeSmudge := "", ""
 	for _, p := range c14Paths {
 		if _, d := st.Delayed[p]; !d {
-			free = p
-			break
+			if free == "" {
+				free = p
+			}
+			if freeSmudge == "" && st.Used[p] == "" {
+				freeSmudge = p
+			}
 		}
+	}
+	if freeSmudge == "" && len(st.Delayed) == 0 {
+		freeSmudge = free
 	}
 	for i, o := range s.ops {
 		if o.Kind == "finish" {
@@ -579,7 +607,11 @@ func (s *c14Search) enabled(st *c14State) []int {
 				kind = "c"
 			}
 			inCore := strings.Contains(pl.CoreFor, kind) || (s.thorough && strings.Contains(pl.CoreFor, strings.ToUpper(kind)))
-			if o.Path != free || o.Scheme != pl.Schemes[0] || !inCore {
+			want := freeSmudge
+			if o.Kind == "clean" {
+				want = free
+			}
+			if o.Path != want || o.Scheme != pl.Schemes[0] || !inCore {
 				continue
 			}
 		}
@@ -646,11 +678,14 @@ func (s *c14Search) bfs(deadline time.Time, workers int) (*vx.Stats, c14Info) {
 					retried := int64(0)
 					for try := 0; try < 2 && strings.HasPrefix(run.Inconcl, "filter-process guard timeout"); try++ {
 						// a tool guard fired (machine overloaded?): re-execute; a persistent timeout stays inconclusive
-						first := run.Inconcl
+						first, dump := run.Inconcl, run.HangDump
 						run = s.e.runProgram(t.node.root, ops)
 						retried++
 						if run.Inconcl == "" {
 							fmt.Printf("note: guard timeout not reproduced on re-execution: %s\n", c14Clip(first, 300))
+						}
+						if try == 0 {
+							fmt.Printf("note: goroutine dump of the filter at the guard timeout:\n%s\n", c14Clip(dump, 12000))
 						}
 					}
 					if run.Counters != nil && retried > 0 {
@@ -802,21 +837,28 @@ func c14E2E(x *vx.X) vx.Result {
 	files := map[string][]byte{"a.bin": gitx.Content("bin", 3000, 11), "b.bin": gitx.Content("bin", 70000, 12), "c.bin": gitx.Content("text", 1500, 13)}
 	remote := w.Init("remote.git", true)
 	src := w.Init("src", false)
-	w.MustGit(src, "remote", "add", "origin", remote)
-	w.MustGit(src, "config", "lfs.url", srv.URL+"/r")
-	w.MustGit(src, "config", "filter.lfs.process", "") // the source repository is built with the one-shot filters, not with the subject
+	// the source repository is built with the one-shot filters (a global config without filter.lfs.process), not with the subject
+	gc, _ := os.ReadFile(filepath.Join(w.Home, ".gitconfig"))
+	alt := filepath.Join(w.Root, "gitconfig-oneshot")
+	os.WriteFile(alt, []byte(strings.Replace(string(gc), "\tprocess = git-lfs filter-process\n", "", 1)), 0644)
+	senv := []string{"GIT_CONFIG_GLOBAL=" + alt}
+	sgit := func(args ...string) gitx.Res { return w.GitE(src, senv, args...) }
 	gitx.WriteFile(src, ".gitattributes", []byte("*.bin filter=lfs diff=lfs merge=lfs -text\n"), 0644)
-	w.MustGit(src, "add", ".")
-	w.MustGit(src, "commit", "-qm", "attrs")
-	w.MustGit(src, "checkout", "-q", "-b", "data")
+	setup := [][]string{{"remote", "add", "origin", remote}, {"config", "lfs.url", srv.URL + "/r"}, {"add", "."}, {"commit", "-qm", "attrs"}, {"checkout", "-q", "-b", "data"}}
+	for _, a := range setup {
+		if r := sgit(a...); !r.OK() {
+			res.ToolErr = fmt.Sprintf("e2e setup: git %v failed: %s", a, r)
+			return res
+		}
+	}
 	for n, b := range files {
 		gitx.WriteFile(src, n, b, 0644)
 	}
-	w.MustGit(src, "add", ".")
-	w.MustGit(src, "commit", "-qm", "data")
-	if r := w.Git(src, "push", "-q", "origin", "main", "data"); !r.OK() {
-		res.ToolErr = "e2e setup: push failed: " + r.String()
-		return res
+	for _, a := range [][]string{{"add", "."}, {"commit", "-qm", "data"}, {"push", "-q", "origin", "main", "data"}} {
+		if r := sgit(a...); !r.OK() {
+			res.ToolErr = fmt.Sprintf("e2e setup: git %v failed: %s", a, c14Clip(r.String(), 600))
+			return res
+		}
 	}
 	for _, b := range files {
 		if !srv.Has(gitx.Oid(b)) {
@@ -942,12 +984,74 @@ func c14ProgramsScenario(c *vx.Check, extra map[string]interface{}) vx.Part {
 	return vx.Part{Scenario: "programs", Stats: st, Exec: exec}
 }
 
+// c14Stress is a development aid: VERIF_C14_STRESS="<n>:<guard seconds>:<root>:<kind>,<path>,<payload>,<scheme>;finish;..." runs one
+// program n times (16 at a time) and prints the goroutine dump of the first execution that hits the guard.
+func c14Stress(spec string) {
+	e := c14NewEnv()
+	defer e.close()
+	f := strings.SplitN(spec, ":", 4)
+	var n, guard int
+	fmt.Sscan(f[0], &n)
+	fmt.Sscan(f[1], &guard)
+	c14Guard = time.Duration(guard) * time.Second
+	root := -1
+	for i, r := range e.roots {
+		if r.Name == f[2] {
+			root = i
+		}
+	}
+	var ops []c14Op
+	for _, o := range strings.Split(f[3], ";") {
+		if o == "finish" {
+			ops = append(ops, c14Op{Kind: "finish"})
+			continue
+		}
+		g := strings.Split(o, ",")
+		ops = append(ops, c14Op{Kind: g[0], Path: g[1], Payload: e.pidx[g[2]], Scheme: g[3]})
+	}
+	var mu sync.Mutex
+	hangs, viols, done := 0, 0, 0
+	var wg sync.WaitGroup
+	sem := make(chan struct{}, 16)
+	t0 := time.Now()
+	for i := 0; i < n; i++ {
+		wg.Add(1)
+		sem <- struct{}{}
+		go func() {
+			defer wg.Done()
+			defer func() { <-sem }()
+			r := e.runProgram(root, ops)
+			mu.Lock()
+			defer mu.Unlock()
+			done++
+			if r.Inconcl != "" {
+				hangs++
+				if hangs == 1 {
+					fmt.Printf("HANG %s\n%s\n", r.Inconcl, r.HangDump)
+				}
+			}
+			if len(r.Viols) > 0 {
+				viols++
+				if viols == 1 {
+					fmt.Printf("VIOL %+v\n", r.Viols)
+				}
+			}
+		}()
+	}
+	wg.Wait()
+	fmt.Printf("stress: %d executions, %d hangs, %d with violations, %.1fs\n", done, hangs, viols, time.Since(t0).Seconds())
+}
+
 func TestVerifC14(t *testing.T) {
+	if spec := os.Getenv("VERIF_C14_STRESS"); spec != "" {
+		c14Stress(spec)
+		os.Exit(0)
+	}
 	c := vx.NewCheck("C14", "model_checking")
 	c.Rule = "explicit-state BFS over request programs obeying Git's filter-client grammar, each executed on the real `git-lfs filter-process` binary (fresh process + fresh repository per program); a case = one (canonical pre-state, request) transition, distinct by that pair; canonical state = (root configuration, process alive, delayed path->payload map, transfer queue nil/alive, observed local store)"
 	c.Assumptions = []string{
 		"Git's client grammar: handshake; then clean(path,bytes) / smudge(path,bytes) / smudge(path,bytes,can-delay=1) on paths Git is not currently waiting for; list_available_blobs only after at least one status=delayed, repeated - each announced path retrieved by a content-less smudge - until the list is empty; then further requests may follow",
-		"path symmetry: beyond the full-alphabet request positions a request uses the smallest path not currently delayed and one packetisation ('mixed') per payload",
+		"path symmetry: beyond the full-alphabet request positions a clean uses the smallest path not currently delayed, a smudge the smallest path neither delayed nor already smudged in the current checkout (Git visits each path once per checkout, in index order; a new checkout starts when all paths were smudged and none is delayed), and one packetisation ('mixed') per payload",
 		"the canonical key merges only states in which everything the filter loop remembers (ptrs map, q nil/alive, fresh closeOnce/available per queue) and the local store are equal; queue contents equal the delayed map because paths are distinct within a phase",
 		"one-shot reference = the same git-lfs binary run as `git-lfs clean -- <path>` / `git-lfs smudge [--skip] -- <path>` on the same bytes in a fresh repository whose local store holds exactly the objects observed in the filter's repository before the request; a one-shot filter that exits non-zero corresponds to a failure status (error/abort), never to content",
 		"lfs.transfer.maxretries=1, lfs.transfer.maxretrydelay=0 in every repository (identical for filter-process and one-shot runs) so that failing downloads end quickly; no oracle depends on time",
